@@ -14,6 +14,7 @@
 #include <string>
 #include <type_traits>
 #include <vector>
+#include <unistd.h>
 
 namespace vh {
 
@@ -110,6 +111,7 @@ inline volatile sig_atomic_t g_in_case = 0;
 inline void fault_handler(int sig)
 {
   if (g_in_case) siglongjmp(g_fault_jmp, sig);
+  if (sig == SIGALRM) return;
   std::signal(sig, SIG_DFL);
   std::raise(sig);
 }
@@ -125,6 +127,12 @@ inline void install_fault_handler()
   sa.sa_flags = SA_NODEFER | SA_ONSTACK;
   sigaction(SIGSEGV, &sa, nullptr);
   sigaction(SIGBUS, &sa, nullptr);
+  sigaction(SIGALRM, &sa, nullptr);   // a case that does not terminate is an outcome too (TIMEOUT)
+}
+inline unsigned case_timeout()
+{
+  const char* e = std::getenv("VERIF_CASE_TIMEOUT");
+  return e ? unsigned(std::atoi(e)) : 20u;
 }
 
 // main loop: argv[1] = case file, argv[2] = number of leading cases to skip
@@ -145,13 +153,17 @@ inline int case_loop(int argc, char** argv, F&& run_case)
     if (n++ < skip) continue;
     toks_t toks = split(line);
     std::string out;
-    if (sigsetjmp(g_fault_jmp, 1) != 0) {
+    int sig = sigsetjmp(g_fault_jmp, 1);
+    if (sig != 0) {
       g_in_case = 0;
-      std::fputs("FAULT\n", stdout);
+      alarm(0);
+      std::fputs(sig == SIGALRM ? "TIMEOUT\n" : "FAULT\n", stdout);
       std::fflush(stdout);
+      if (sig == SIGALRM) _exit(4);   // state after an interrupted case is unknown: the runner restarts us at the next case
       continue;
     }
     g_in_case = 1;
+    alarm(case_timeout());
     try {
       out = run_case(toks);
     } catch (const std::runtime_error& e) {
@@ -162,6 +174,7 @@ inline int case_loop(int argc, char** argv, F&& run_case)
       out = "EXC";
     }
     g_in_case = 0;
+    alarm(0);
     std::fputs(out.c_str(), stdout);
     std::fputc('\n', stdout);
     std::fflush(stdout);
